@@ -159,6 +159,7 @@ const DELIMS: &[(&str, &str)] = &[
     ("--", "||"),
     ("=>", ";"),
     (":", "|"),
+    (" ", ","),
 ];
 /// further pairs for the correspondence of encoder and parser alone
 const ODD_DELIMS: &[(&str, &str)] = &[("", " "), ("=", ""), ("", ""), (" ", " "), ("=", "="), ("a", "b"), (" ", ","), ("=", "  "), ("\"", "'"), ("\\", ","), ("é", "日"), ("\t", " ")];
@@ -327,6 +328,12 @@ fn emit_parse(sink: &mut Sink, rng: &mut Rng, line: &str, kd: &str, fd: &str, bu
 
 fn emit_kv_oracle(sink: &mut Sink, o: &Value, kd: &str, fd: &str) {
     sink.emit("kv.encode", &[show_value(o), h(kd), h(fd), "0".into()]);
+    let in_domain = o.as_object().unwrap().iter().all(|(k, v)| !k.is_empty() && !v.as_bytes().unwrap().is_empty());
+    if !in_domain {
+        // the property quantifies over non-empty keys and values: encoder correspondence only
+        sink.count("c24:kv:outside_domain");
+        return;
+    }
     if let Some(r) = sink.emit("o.c24.kv", &[show_value(o), h(kd), h(fd)]) {
         sink.count(if r.obs[1] == "ok" { "c24:kv:roundtrip_parsed" } else { "c24:kv:roundtrip_rejected" });
         if let Some(enc) = unhex(&r.obs[0]) {
@@ -425,7 +432,7 @@ pub fn generate(sink: &mut Sink, rng: &mut Rng, n: u64) {
         obj(&[("a", "1"), ("b", "2"), ("c", "3")]),
     ];
     for o in &edge_objects {
-        for (kd, fd) in [("=", " "), (":", ","), ("--", "||")] {
+        for (kd, fd) in [("=", " "), (":", ","), ("--", "||"), (" ", ",")] {
             emit_kv_oracle(sink, o, kd, fd);
         }
     }
